@@ -638,18 +638,19 @@ mod detail {
         nodes: &[FlatNode<T>],
     ) -> ExprIdxVec {
         // Applying a commutative operator between two literals early must not be visible. Hence,
-        // the closest operator to its left that is not applied before it anyway has a lower
-        // priority or is the same operator.
+        // no unary operator is attached to it and the closest operator to its left that is not
+        // applied before it anyway has a lower priority or is the same operator.
         let is_regroupable = |bin_op_idx: usize| {
             let op = &ops[bin_op_idx];
-            ops[..bin_op_idx]
-                .iter()
-                .rev()
-                .find(|left| left.bin_op.op.prio <= op.bin_op.op.prio)
-                .map(|left| {
-                    left.bin_op.op.prio < op.bin_op.op.prio || left.bin_op.idx == op.bin_op.idx
-                })
-                .unwrap_or(true)
+            op.unary_op.len() == 0
+                && ops[..bin_op_idx]
+                    .iter()
+                    .rev()
+                    .find(|left| left.bin_op.op.prio <= op.bin_op.op.prio)
+                    .map(|left| {
+                        left.bin_op.op.prio < op.bin_op.op.prio || left.bin_op.idx == op.bin_op.idx
+                    })
+                    .unwrap_or(true)
         };
         let prio_increase =
             |bin_op_idx: usize| match (&nodes[bin_op_idx].kind, &nodes[bin_op_idx + 1].kind) {
